@@ -190,6 +190,49 @@ def check(ctx):
                           'configuration mutator %s is reachable from a runtime entry point: %s' % (f.name, ' -> '.join(cg.path(roots, f) or [])))
     ctx.floor('C18.R5', 20)
 
+    # ---- R6: memoisation is state that outlives the call.  A memoised function (functools.lru_cache / cache, or a decorator of the package that keeps results) hands the *same*
+    #      object to every later caller: that is invisible only when the object is immutable.  A list / bytearray / dict result is shared - the first caller that extends it in
+    #      place (`encoded += ...`) changes what every later call returns.
+    ctx.rule('C18.R6', 'a memoised function returns immutable objects only (a cached list / bytearray / dict is shared, mutable state between calls)')
+    MEMO = ('lru_cache', 'cache', 'cached', 'memoize', 'memoized', 'memo')
+    n6 = 0
+    n_funcs = 0
+    for m in model.modules.values():
+        if not m.rel.startswith('asn1tools/'):
+            continue
+        for f in [x_ for x_ in ast.walk(m.tree) if isinstance(x_, ast.FunctionDef)]:
+            n_funcs += 1
+            decos = []
+            for d_ in f.decorator_list:
+                t_ = d_.func if isinstance(d_, ast.Call) else d_
+                nm_ = t_.attr if isinstance(t_, ast.Attribute) else (t_.id if isinstance(t_, ast.Name) else '')
+                if nm_ in MEMO:
+                    decos.append(nm_)
+            if not decos:
+                continue
+            n6 += 1
+            mutable = None
+            local_mut = {a_.targets[0].id for a_ in walk_no_nested(f) if isinstance(a_, ast.Assign) and isinstance(a_.targets[0], ast.Name)
+                         and (isinstance(a_.value, (ast.List, ast.ListComp, ast.Dict, ast.DictComp, ast.Set, ast.SetComp))
+                              or (isinstance(a_.value, ast.Call) and isinstance(a_.value.func, ast.Name) and a_.value.func.id in ('list', 'dict', 'set', 'bytearray')))}
+            for r_ in walk_no_nested(f):
+                if isinstance(r_, ast.Return) and r_.value is not None:
+                    v_ = r_.value
+                    if isinstance(v_, ast.Subscript) and isinstance(v_.slice, ast.Slice):
+                        v_ = v_.value          # a slice of a list is a list
+                    if isinstance(v_, (ast.List, ast.ListComp, ast.Dict, ast.DictComp, ast.Set, ast.SetComp)) or (isinstance(v_, ast.Name) and v_.id in local_mut) \
+                            or (isinstance(v_, ast.Call) and isinstance(v_.func, ast.Name) and v_.func.id in ('list', 'dict', 'set', 'bytearray')):
+                        mutable = r_
+            ctx.instance('C18.R6', '%s (@%s)' % (Model.qual(f), decos[0]), 'returns immutable objects' if mutable is None else 'VIOLATION', node=f, file=m.rel)
+            if mutable is not None:
+                ctx.violation('C18.R6', m.rel, mutable, Model.qual(f),
+                              'the function is memoised (@%s) and returns a mutable object (`%s`): every caller receives the same object, so a caller that extends it in place changes the '
+                              'result of all later calls with the same argument - the second encoding of the same value differs from the first' % (decos[0], norm_stmt(mutable)),
+                              stmt='memoised function returns a mutable object')
+    ctx.instance('C18.R6', '%d functions of the package examined, %d memoised' % (n_funcs, n6), 'ok', nontrivial=n_funcs > 500)
+    if n_funcs < 500:
+        raise AnalysisError('C18.R6 saw only %d functions' % n_funcs)
+
 
 PER = 'asn1tools/codecs/per.py'
 BER = 'asn1tools/codecs/ber.py'
